@@ -37,7 +37,9 @@ Exp(cs) ==
                                    THEN JacBatchTree(cs.tapes, N, [i \in 1..Len(cs.tapes) |-> 2]) ELSE NoTree,
                             P |-> IF \A i \in 1..Len(cs.tapes) : Differentiable(cs.tapes[i]) THEN 2 ELSE 0]
 
-Emit == ph = 0 /\ ph' = 1 /\ c' = c /\ PrintT(ToJson([c |-> c, exp |-> Exp(c)]))
+\* sq / bsq: the tolerated batch-size-1 variant of res / bres (drift, see ResultShape); equal to res / bres for most requests
+Sq(cs) == [sq |-> IF cs.fam = "batch" THEN BatchTreeSq(cs.tapes, N) ELSE TapeTreeSq(cs.tapes[1], N), bsq |-> BatchTreeSq(cs.tapes, N)]
+Emit == ph = 0 /\ ph' = 1 /\ c' = c /\ PrintT(ToJson([c |-> c, exp |-> Exp(c), drift |-> Sq(c)]))
 Next == Emit
 
 Laws == ph # 0 \/
